@@ -34,6 +34,7 @@ func init() {
 			// … and accepted by read: the refusals of read are the documented ones (merge commits exempt from the hop limit) (shared with C03)
 			checkReadGuards(c)
 			checkOrderIndependence(c)
+			checkDagMergeAllVisitsAll(c, "R2.12")
 		})
 	register("C09",
 		"Static shape of the identity history rules: (*Identity).Merge moves the ref only after appending, reports true exactly where it moved the ref, and never refuses after moving it; identity.MergeAll reports Updated/Nothing according to that result, validates before touching refs and keeps going after a refused identity; every store to Identity.versions is an append to the same field or the initialisation of a fresh Identity; Identity.Id reads version 0 only; Identity.Validate and version.Validate contain the documented refusals with the right polarity; identity.read refuses a ref whose name is not the first version's id.",
@@ -54,6 +55,7 @@ func init() {
 			checkFirstVersionFrozen(c)
 			checkIdentityMergeAllVerdict(c)
 			checkNewOnlyWhenRefAbsent(c)
+			checkUserIdentityResolvedEachCall(c, "R9.11")
 			// what a long-running process serves and edits after a pull is the merged identity
 			checkCacheMergeFold(c, "R2.6")
 			c.Doc("R11.1", "per SubCache function: excerpts store ⇒ index write; delete ⇒ Index.Remove; reset ⇒ Index.Clear; and SubCache.write() on every path to a non-error exit")
@@ -224,7 +226,17 @@ func checkIdentityValidate(c *Ctx) {
 	okD := false
 	for _, cl := range CallsNamed(fn, "entities/identity.version.Validate") {
 		if cl.Value() != nil && errorPropagated(cl.Value(), nil) && cl.Block().Comment != "" {
-			okD = true
+			// … of every version: the call sits in the loop over i.versions and its receiver is the loop's element
+			recv := cl.Recv()
+			elem := false
+			if ld, isLd := recv.(*ssa.UnOp); isLd {
+				if ia, isIA := ld.X.(*ssa.IndexAddr); isIA && hasField(ia.X, "versions") && ascendingRangeIndex(ia.Index) {
+					elem = true
+				}
+			}
+			if enclosingLoopHeader(cl.Block()) != nil && elem {
+				okD = true
+			}
 		}
 	}
 	c.Check(okD, "R9.4", "Identity.Validate:each-version", pos, "version.Validate error propagated", "versions are not individually validated")
